@@ -171,6 +171,32 @@ var corpus = []scripted{
 			h.doRead()
 		})
 	}},
+	{"F28: Close after a write failed on a connection whose other end was closed", baseOpts(), func(h *hist) {
+		h.quiet(func() {
+			h.sc.budgetIn = 0
+			h.connectQuiet()
+			h.sc.wscript = []writeAns{{wClosed, 0}}
+			h.sc.peerCloses = true
+			h.publish(false, []byte("p"), "t") // closed-pipe error: the connection is left as is, connect pending
+			h.close()
+			h.doRead() // the left-over end of stream; the connection is closed now
+			h.doRead() // ErrClosed
+			h.doRead()
+		})
+	}},
+	{"F28: Disconnect after a write failed on a connection whose other end was closed", baseOpts(), func(h *hist) {
+		h.quiet(func() {
+			h.sc.budgetIn = 0
+			h.connectQuiet()
+			h.sc.wscript = []writeAns{{wClosed, 1}}
+			h.sc.peerCloses = true
+			h.ping()
+			h.disconnect()
+			h.doRead()
+			h.doRead()
+			h.doRead()
+		})
+	}},
 	{"F11: restart with only PUBRELs pending", baseOpts(), func(h *hist) {
 		h.quiet(func() {
 			h.sc.budgetIn = 0
